@@ -419,3 +419,195 @@ func SortedKeys[V any](m map[string]V) []string {
 	sort.Strings(ks)
 	return ks
 }
+
+// ---------------------------------------------------------------------------
+// C18: the same document with every reference replaced by a copy of its target
+
+func inlineSchema(s *Schema, comps map[string]*Schema, depth int) *Schema {
+	if s == nil {
+		return nil
+	}
+	if s.Ref != "" {
+		if depth > 20 {
+			return &Schema{}
+		}
+		return inlineSchema(comps[s.Ref], comps, depth+1)
+	}
+	cp := *s
+	cp.Items = inlineSchema(s.Items, comps, depth)
+	cp.AddProps = inlineSchema(s.AddProps, comps, depth)
+	cp.Props = nil
+	for _, p := range s.Props {
+		cp.Props = append(cp.Props, Prop{Name: p.Name, Schema: inlineSchema(p.Schema, comps, depth)})
+	}
+	cp.AllOf = nil
+	for _, a := range s.AllOf {
+		cp.AllOf = append(cp.AllOf, inlineSchema(a, comps, depth))
+	}
+	cp.OneOf = nil
+	for _, a := range s.OneOf {
+		cp.OneOf = append(cp.OneOf, inlineSchema(a, comps, depth))
+	}
+	return &cp
+}
+
+// InlineAll returns a document without components (security schemes aside):
+// schema, parameter, header, request-body and response references (through
+// alias chains) are replaced by inline copies of their targets.
+func (s *Spec) InlineAll() *Spec {
+	comps := map[string]*Schema{}
+	for _, p := range s.CompSchemas {
+		comps[p.Name] = p.Schema
+	}
+	out := &Spec{ServerURL: s.ServerURL, ServerVar: s.ServerVar, Schemes: s.Schemes, Global: s.Global, HasGlobal: s.HasGlobal, InfoDesc: s.InfoDesc}
+	param := func(p Param) Param {
+		if p.Ref != "" {
+			p = s.CompParams[p.Ref]
+		}
+		p.Ref = ""
+		p.Schema = inlineSchema(p.Schema, comps, 0)
+		return p
+	}
+	header := func(h Header) Header {
+		if h.Ref != "" {
+			t := s.CompHeaders[h.Ref]
+			t.Name = h.Name
+			h = t
+		}
+		h.Ref = ""
+		h.Schema = inlineSchema(h.Schema, comps, 0)
+		return h
+	}
+	for _, pi := range s.Paths {
+		npi := &PathItem{Raw: pi.Raw}
+		for _, p := range pi.Params {
+			npi.Params = append(npi.Params, param(p))
+		}
+		for _, o := range pi.Ops {
+			no := &Op{Method: o.Method, Security: o.Security, Summary: o.Summary, Desc: o.Desc, ID: o.ID}
+			for _, p := range o.Params {
+				no.Params = append(no.Params, param(p))
+			}
+			if o.Body != nil {
+				b := *o.Body
+				if b.Ref != "" {
+					b = s.CompBodies[b.Ref]
+				}
+				b.Ref = ""
+				b.Schema = inlineSchema(b.Schema, comps, 0)
+				no.Body = &b
+			}
+			for _, r := range o.Responses {
+				st := r.Status
+				for k := 0; r.Ref != "" && k < 20; k++ {
+					r = s.CompResponses[r.Ref]
+				}
+				r.Status = st
+				r.Ref = ""
+				r.Schema = inlineSchema(r.Schema, comps, 0)
+				var hs []Header
+				for _, h := range r.Headers {
+					hs = append(hs, header(h))
+				}
+				r.Headers = hs
+				no.Responses = append(no.Responses, r)
+			}
+			npi.Ops = append(npi.Ops, no)
+		}
+		out.Paths = append(out.Paths, npi)
+	}
+	return out
+}
+
+// HoistAll returns a document in which every inline parameter, response,
+// request body, response header (scalar) and object/array/primitive schema of
+// those has been moved into components and is used by reference. names maps
+// "<METHOD> <raw path> <status>" to the response component's name.
+func (s *Spec) HoistAll() (*Spec, map[string]string) {
+	out := &Spec{ServerURL: s.ServerURL, ServerVar: s.ServerVar, Schemes: s.Schemes, Global: s.Global, HasGlobal: s.HasGlobal, InfoDesc: s.InfoDesc,
+		CompSchemas: append([]Prop{}, s.CompSchemas...), CompParams: map[string]Param{}, CompHeaders: map[string]Header{}, CompResponses: map[string]Response{}, CompBodies: map[string]Body{}}
+	for k, v := range s.CompParams {
+		out.CompParams[k] = v
+	}
+	for k, v := range s.CompHeaders {
+		out.CompHeaders[k] = v
+	}
+	for k, v := range s.CompResponses {
+		out.CompResponses[k] = v
+	}
+	for k, v := range s.CompBodies {
+		out.CompBodies[k] = v
+	}
+	n := 0
+	fresh := func(p string) string { n++; return fmt.Sprintf("%s%d", p, n) }
+	schema := func(sc *Schema) *Schema {
+		// (a nullable primitive/array component is refused by the generator; `any` has no type to name)
+		if sc == nil || sc.Ref != "" || (sc.Nullable && sc.Type != "object") || (sc.Type == "" && len(sc.AllOf) == 0) {
+			return sc
+		}
+		name := fresh("HS")
+		out.CompSchemas = append(out.CompSchemas, Prop{Name: name, Schema: sc})
+		return &Schema{Ref: name}
+	}
+	names := map[string]string{}
+	param := func(p Param) Param {
+		if p.Ref != "" {
+			return p
+		}
+		p.Schema = schema(p.Schema)
+		name := fresh("HP")
+		out.CompParams[name] = p
+		return Param{Ref: name, Name: p.Name, In: p.In, Required: p.Required, Schema: p.Schema}
+	}
+	for _, pi := range s.Paths {
+		npi := &PathItem{Raw: pi.Raw}
+		for _, p := range pi.Params {
+			npi.Params = append(npi.Params, param(p))
+		}
+		for _, o := range pi.Ops {
+			no := &Op{Method: o.Method, Security: o.Security, Summary: o.Summary, Desc: o.Desc, ID: o.ID}
+			for _, p := range o.Params {
+				no.Params = append(no.Params, param(p))
+			}
+			if o.Body != nil {
+				b := *o.Body
+				if b.Ref == "" {
+					if b.Content == "application/json" {
+						b.Schema = schema(b.Schema)
+					}
+					name := fresh("HB")
+					out.CompBodies[name] = b
+					b = Body{Ref: name}
+				}
+				no.Body = &b
+			}
+			for _, r := range o.Responses {
+				if r.Ref == "" {
+					st := r.Status
+					if r.Content == "application/json" {
+						r.Schema = schema(r.Schema)
+					}
+					var hs []Header
+					for _, h := range r.Headers {
+						if h.Ref == "" && h.Schema != nil && h.Schema.Type != "array" {
+							hn := fresh("HH")
+							out.CompHeaders[hn] = Header{Required: h.Required, Schema: h.Schema, Desc: h.Desc}
+							h = Header{Name: h.Name, Ref: hn}
+						}
+						hs = append(hs, h)
+					}
+					r.Headers = hs
+					r.Status = ""
+					name := fresh("HR")
+					out.CompResponses[name] = r
+					names[o.Method+" "+pi.Raw+" "+st] = name
+					r = Response{Status: st, Ref: name}
+				}
+				no.Responses = append(no.Responses, r)
+			}
+			npi.Ops = append(npi.Ops, no)
+		}
+		out.Paths = append(out.Paths, npi)
+	}
+	return out, names
+}
